@@ -25,6 +25,8 @@
 #include <unistd.h>
 #include <sys/wait.h>
 #include <execinfo.h>
+#include <cstring>
+#include "watchdog.h"
 using namespace photon;
 
 struct Rec { int kind; int t; long a; long b; };
@@ -56,15 +58,13 @@ static void dump_log() {
         case REFS: printf("refs %d %ld %ld\n", r.t, r.a, r.b); break;
         } }
 }
-static long alarm_seen = -1; static int alarm_ticks = 0;
-// every 10 s: no progress since the last tick = stuck (the in-program watchdog cannot run if its own vCPU is stuck);
-// still progressing after 300 s = the machine is too loaded to judge (result slow: inconclusive, not a violation)
-static void on_alarm(int) {
-    long p = progress.load();
-    if (p == alarm_seen) { dump_log(); printf("stalled no progress for 10 s of real time (progress=%ld)\nresult hung\n", p); fflush(stdout); _exit(0); }
-    alarm_seen = p;
-    if (++alarm_ticks >= 30) { dump_log(); printf("result slow\n"); fflush(stdout); _exit(0); }
-    alarm(10);
+// hang / slow verdicts: watchdog.h (no progress in 2 windows of 10 s in which the machine ran every thread = hung - the in-program watchdog cannot
+// run if its own vCPU is stuck; no verdict after 300 s = the machine is too loaded to judge: result slow, inconclusive, not a violation)
+static long wd_progress() { return progress.load(); }
+static void on_verdict(const char* result) {
+    dump_log(); wd::print_diag();
+    if (!strcmp(result, "result hung")) printf("stalled no progress for 20 s of real time in which every thread ran or slept voluntarily (progress=%ld)\n", wd_progress());
+    printf("%s\n", result); fflush(stdout); _exit(0);
 }
 static void on_segv(int sig) { void* bt[40]; int n = backtrace(bt, 40); dump_log(); printf("segv backtrace:\n"); fflush(stdout); backtrace_symbols_fd(bt, n, 1); printf("result crashed signal=%d\n", sig); fflush(stdout); _exit(0); }
 
@@ -101,7 +101,7 @@ static void worker(int id, int iters) {
 }
 
 static int run_program(const std::vector<std::string>& lines) {
-    signal(SIGSEGV, on_segv); signal(SIGABRT, on_segv); signal(SIGALRM, on_alarm); alarm(10);
+    signal(SIGSEGV, on_segv); signal(SIGABRT, on_segv); wd::start(wd_progress, on_verdict);
     set_log_output(log_output_null);
     logbuf = new Rec[MAXLOG];
     std::istringstream is(lines.empty() ? "" : lines[0]); std::string kind; is >> kind;
@@ -123,6 +123,7 @@ static int run_program(const std::vector<std::string>& lines) {
         if (p == last) stalled++; else stalled = 0;
         last = p;
         if (stalled >= 30 && getenv("MV_PAUSE_ON_STALL")) { fprintf(stderr, "STALLED pid=%d\n", getpid()); alarm(0); for (;;) ::pause(); }
+        if (stalled >= 30 && !wd::confirm_stall(3)) stalled = 0;      // progress resumed, or the machine did not run some thread
         if (stalled >= 30) { dump_log(); printf("stalled finished=%d of %d progress=%ld\nresult hung\n", finished_threads.load(), total, p); fflush(stdout); _exit(0); }
     }
     for (auto& t : os) t.join();
